@@ -136,9 +136,14 @@ func (t *Input) CoerceIn(v interface{}) (interface{}, error) {
 		}
 		for _, f := range t.fields.list {
 			k := f.N
-			ov := tv[k]
+			ov, given := tv[k]
 			if ov == nil {
-				if f.Default != nil { // if not set then add the default value if not nil
+				if given {
+					// An explicit null is not replaced by the default.
+					if _, ok := f.Type.(*NonNull); ok {
+						return nil, fmt.Errorf("%s is required but missing", k)
+					}
+				} else if f.Default != nil { // if not set then add the default value if not nil
 					if rt != nil {
 						if err := t.reflectSetKey(rv, k, f.Default); err != nil {
 							return nil, inErr(err, k)
